@@ -86,6 +86,16 @@ func snapshot(v reflect.Value, prefix string, out map[string]string) {
 			snapshot(f, name+".", out)
 			continue
 		}
+		if f.Kind() == reflect.Ptr && f.Type().Elem().Kind() == reflect.Struct {
+			// a pointer member: "nil", or its leaves below it
+			if f.IsNil() {
+				out[name] = "nil"
+			} else {
+				out[name] = "&"
+				snapshot(f.Elem(), name+".", out)
+			}
+			continue
+		}
 		out[name] = sym(f)
 	}
 }
@@ -172,7 +182,9 @@ func fill(v reflect.Value, vec int, counter *int) {
 				continue // nil
 			}
 			e := reflect.New(f.Type().Elem())
-			if vec == 9 {
+			if e.Elem().Kind() == reflect.Struct {
+				fill(e.Elem(), vec, counter)
+			} else if vec == 9 {
 				e.Elem().SetInt(8)
 			} else {
 				e.Elem().SetInt(int64(200 + *counter))
